@@ -56,6 +56,10 @@ pub struct Workload {
     pub spec: Spec,
     pub hays: Vec<Vec<u8>>,
     pub threads: Vec<Vec<Op>>,
+    /// where the shared automaton comes from: 0 = the builder, 1 = a clone, 2 = restored from
+    /// serialised bytes
+    #[serde(default)]
+    pub provenance: u8,
 }
 
 #[derive(Clone, Copy, Debug, PartialEq, Eq, Hash, Serialize, Deserialize)]
@@ -472,7 +476,11 @@ fn run_op(
 fn scenario(w: &Arc<Workload>, base: &Arc<Baseline>) {
     TR.with(|t| t.borrow_mut().begin_execution());
     let p: Arc<Box<dyn DynPma>> = match pma::build(&w.spec) {
-        Ok(p) => Arc::new(p),
+        Ok(p) => Arc::new(match w.provenance {
+            1 => p.clone_box(),
+            2 => p.roundtrip(&[]).0,
+            _ => p,
+        }),
         Err(e) => fail("build-nondeterministic", format!("build failed inside the execution: {e}")),
     };
     let before = p.clone_box();
@@ -675,7 +683,8 @@ pub fn generate(seed: u64) -> Workload {
         }
         threads.push(ops);
     }
-    Workload { spec, hays, threads }
+    let provenance = *rng.pick(&[0u8, 0, 0, 1, 2]);
+    Workload { spec, hays, threads, provenance }
 }
 
 // ---------------------------------------------------------------------------------------
@@ -803,6 +812,9 @@ pub struct Lockstep {
     pub method: Method,
     /// burst sizes the producer uses between two synchronisation points
     pub bursts: Vec<usize>,
+    /// 0 = built, 1 = clone, 2 = restored from serialised bytes
+    #[serde(default)]
+    pub provenance: u8,
 }
 
 /// Record which thread passed a synchronisation point (for the interleaving measure only).
@@ -832,7 +844,11 @@ impl Iterator for RxSource {
 fn lockstep_scenario(ls: &Arc<Lockstep>, want: &Arc<Vec<Mt>>) {
     TR.with(|t| t.borrow_mut().begin_execution());
     let p: Arc<Box<dyn DynPma>> = match pma::build(&ls.spec) {
-        Ok(p) => Arc::new(p),
+        Ok(p) => Arc::new(match ls.provenance {
+            1 => p.clone_box(),
+            2 => p.roundtrip(&[]).0,
+            _ => p,
+        }),
         Err(e) => fail("harness", format!("harness: lock-step build failed: {e}")),
     };
     let (tx, rx) = shuttle::sync::mpsc::channel::<u8>();
@@ -981,7 +997,8 @@ pub fn lockstep_generate(seed: u64) -> Lockstep {
         content.truncate(cut);
     }
     let bursts = (0..rng.range(0, 12)).map(|_| rng.range(1, 6)).collect();
-    Lockstep { spec, content, method: *rng.pick(&STD_METHODS), bursts }
+    let provenance = *rng.pick(&[0u8, 0, 1, 2]);
+    Lockstep { spec, content, method: *rng.pick(&STD_METHODS), bursts, provenance }
 }
 
 pub fn lockstep_hash(l: &Lockstep) -> u64 {
